@@ -35,6 +35,10 @@ pub struct C10Case {
     /// 0 = generated graph; otherwise a large shape (queue pressure) of this size.
     pub large: usize,
     pub large_shape: u8,
+    /// Build targets declare a slow `cmd_stdout` input, which widens the windows "during the
+    /// up-to-date check" and "while the record is computed" for the signal to land in.
+    #[serde(default)]
+    pub slow_check: bool,
 }
 
 pub fn c10_case() -> impl Strategy<Value = C10Case> {
@@ -43,10 +47,10 @@ pub fn c10_case() -> impl Strategy<Value = C10Case> {
         prop::collection::vec(any::<u8>(), 1..=3),
         prop::collection::vec(any::<u8>(), 8),
         (any::<bool>(), 0u8..8, any::<u8>(), 0usize..5, 0u16..300, any::<bool>()),
-        (0u8..10, 100usize..700, 0u8..2),
+        (0u8..10, 100usize..700, 0u8..2, any::<bool>()),
     )
         .prop_map(
-            |(raw, rootsel, longb, (watch, cause_b, failing_b, wait_for, delay_ms, double_signal), (large_b, large_size, large_shape))| {
+            |(raw, rootsel, longb, (watch, cause_b, failing_b, wait_for, delay_ms, double_signal), (large_b, large_size, large_shape, slow_check))| {
                 let graph = build_graph(&raw);
                 let n = graph.n();
                 let roots = pick_roots(&graph, &rootsel);
@@ -71,6 +75,7 @@ pub fn c10_case() -> impl Strategy<Value = C10Case> {
                     double_signal,
                     large,
                     large_shape: if large_shape == 0 { 1 } else { 5 },
+                    slow_check: slow_check && large == 0,
                 }
             },
         )
@@ -162,7 +167,33 @@ fn plan(c: &C10Case) -> Plan {
     }
 }
 
-fn write_c10_project(sb: &Sandbox, p: &Plan) -> std::path::PathBuf {
+fn write_c10_project(sb: &Sandbox, p: &Plan, slow_check: bool) -> std::path::PathBuf {
+    let g = &p.graph;
+    let dir = write_c10_project_inner(sb, p);
+    if slow_check {
+        // add a slow command input to every build target (rewrite the project files)
+        for pr in 0..g.nproj {
+            let path = sb.path(&proj_rel(pr)).join("zinoma.yml");
+            if let Ok(text) = std::fs::read_to_string(&path) {
+                if let Ok(mut doc) = serde_json::from_str::<Value>(&text) {
+                    if let Some(ts) = doc["targets"].as_object_mut() {
+                        for (_, t) in ts.iter_mut() {
+                            if t.get("build").is_some() {
+                                let mut input = t["input"].as_array().cloned().unwrap_or_default();
+                                input.push(json!({"cmd_stdout": "sleep 0.15; echo v"}));
+                                t["input"] = Value::Array(input);
+                            }
+                        }
+                    }
+                    let _ = std::fs::write(&path, serde_json::to_string_pretty(&doc).unwrap());
+                }
+            }
+        }
+    }
+    dir
+}
+
+fn write_c10_project_inner(sb: &Sandbox, p: &Plan) -> std::path::PathBuf {
     let g = &p.graph;
     write_graph_project_with(sb, g, &|i| {
         let id = g.ids(i);
@@ -266,7 +297,7 @@ pub fn eval_c10(c: &C10Case) -> CaseResult {
     let p = plan(c);
     let g = &p.graph;
     let sb = Sandbox::new("c10");
-    let dir = write_c10_project(&sb, &p);
+    let dir = write_c10_project(&sb, &p, c.slow_check);
     let mut args: Vec<String> = vec![];
     if c.watch {
         args.push("--watch".into());
@@ -299,6 +330,9 @@ pub fn eval_c10(c: &C10Case) -> CaseResult {
         format!("mode-{}", mode),
         if c.large > 0 { "large".to_string() } else { "generated".to_string() },
     ];
+    if c.slow_check {
+        classes.push("slow-up-to-date-check".to_string());
+    }
     let sample = json!({
         "mode": mode, "cause": format!("{:?}", cause), "wait_for": wait_for, "delay_ms": c.delay_ms,
         "double_signal": c.double_signal,
@@ -408,8 +442,9 @@ pub fn eval_c10(c: &C10Case) -> CaseResult {
         let _ = z.child.kill();
         let _ = z.child.wait();
     }
-    // settle, then look for survivors
-    std::thread::sleep(Duration::from_millis(200));
+    // settle, then look for survivors (short-lived `cmd_stdout` shells of the up-to-date check are
+    // neither builds nor services: give them time to end by themselves)
+    std::thread::sleep(Duration::from_millis(if c.slow_check { 700 } else { 200 }));
     let leaked = sb.marked_processes();
     let leaked_desc = describe(&leaked);
     let stderr = z.stderr_so_far();
@@ -418,13 +453,14 @@ pub fn eval_c10(c: &C10Case) -> CaseResult {
     res.classes = classes;
     res.nontrivial = alive_at_event >= 1 || c.large > 0;
     res.fingerprint = format!(
-        "{:?}|{}|w{}|a{}|d{}|L{}",
+        "{:?}|{}|w{}|a{}|d{}|L{}|s{}",
         cause,
         mode,
         wait_for,
         alive_at_event.min(4),
         c.double_signal,
-        c.large > 0
+        c.large > 0,
+        c.slow_check
     );
     let replay = |msg: &str| {
         json!({"engine": "BB-c10", "case": serde_json::to_value(c).unwrap(), "summary": sample, "message": msg,
